@@ -89,11 +89,12 @@ PROPS = {
         "expected_theorems": [
             "C19_delta_spin_exact", "C19_delta_edge_exact", "C19_spin_selection_state_independent", "C19_edge_selection_uniform",
             "C19_edge_selection_importance", "C19_flip_involutive", "C19_spin_count_constant", "C19_move_detailed_balance",
+            "C19_worm_refuted", "C19_reversible_cannot_go_uphill_surely", "C19_worm_keeps_spin_count",
         ],
         "assumptions": [
             "graphs have no self-loop edges (a == b); couplings, biases, beta are dyadic",
             "exp(-beta dE) is bracketed in Coq by rational bounds (Taylor + argument reduction, outward rounding at 2^-160); the bracket function is part of the correspondence apparatus, not of the theorems",
-            "the worm move is not modelled (known finding); only spin and edge moves are replayed",
+            "the worm move is transcribed (Model/Classical.v worm_move) and replayed on the raw tape like the other moves; the property's stationarity clause is FALSE for it (theorem C19_worm_refuted with its witness; known finding 'worm')",
         ],
         "trusted_base": ["Model/Classical.v transcription of graph.rs do_spin_flip / do_edge_flip / should_flip / do_time_step / get_energy",
                          "stdlib real-number axioms (ClassicalDedekindReals.sig_forall_dec, sig_not_dec, functional_extensionality_dep, Classical_Prop.classic) via Reals.exp in C19_move_detailed_balance only"],
